@@ -155,6 +155,7 @@ def rblock(rng, n):
 class Flt(Engine):
     name = 'flt'
     timeout = 900
+    parallel = 6        # the harness forks per case, the driver engine is stateless
 
     def gen(self, rng, tier):
         nrand = 330 if tier == 'quick' else 2400
@@ -196,6 +197,56 @@ class Flt(Engine):
             n0 = next(n for n in range(65536 * k - 40 * k - 20, 65536 * k) if gzsize(n) >= 65536 * k)
             for n in range(n0 - 2, n0 + 3):
                 yield Case('gzip-buffer-full', ['rt gzip gzip:compression-level=0 gen:zero:%d:0 %s 1/1 10240 exact' % (n, rng.choice(['all', 'c4097']))])
+        # 2c. content with block structure, for every filter that has blocks / windows / frames:
+        #     segments (compressible text, incompressible bytes, zeros, a repeat of earlier content at a
+        #     distance of about one block or well inside the 64 KiB window) whose lengths sit on the filter's
+        #     block size, crossed with the filter's structural options
+        def segs(B, tmpl, near=False):
+            out = []
+            for k in tmpl:
+                ln = max(1, B + rng.choice([0, 0, 0, -1, 1, -4096, 4096]))
+                if k == 'c':   # repeat of what was just written: inside the 64 KiB match window, or one block back
+                    far = [B, max(1, B - 1)] if not near else []
+                    out.append('c%dx%d' % (rng.choice([16384, 65536, 1, 4096, 16384, 32768] + far), ln))
+                elif k == 'h':
+                    out.append('%s%d' % (rng.choice('tr'), max(1, B // 2)))
+                else:
+                    out.append('%s%d' % (k, ln))
+            return 'segs:%d:%s' % (rng.randrange(1 << 30), ','.join(out))
+        TEMPL = ['trc', 'zrc', 'trtc', 'rct', 'trcrc', 'rtr', 'htrc', 'tcr', 'rrt', 'trzc']
+        cfgs = []
+        for dep in ('lz4:block-dependence', ''):
+            for b in (4, 5):
+                for ck in ('', 'lz4:!stream-checksum', 'lz4:block-checksum'):
+                    cfgs.append(('lz4', [x for x in ('lz4:block-size=%d' % b, dep, ck) if x], 65536 << (2 * (b - 4))))
+        cfgs.append(('lz4', ['lz4:block-dependence', 'lz4:compression-level=9', 'lz4:block-size=4'], 65536))
+        cfgs.append(('lz4', ['lz4:block-dependence'], 65536))                     # default block size 7: window only
+        for o in ([], ['zstd:compression-level=1'], ['zstd:max-frame-in=196608'], ['zstd:max-frame-out=65536'],
+                  ['zstd:frame-per-file', 'zstd:min-frame-in=1'], ['zstd:threads=2'], ['zstd:long=17', 'zstd:compression-level=19'],
+                  ['zstd:max-frame-in=131073', 'zstd:threads=1']):
+            cfgs.append(('zstd', o, 131072))
+        cfgs += [('bzip2', ['bzip2:compression-level=1'], 100000), ('bzip2', [], 100000),
+                 ('xz', ['xz:compression-level=0'], 262144), ('xz', ['xz:threads=2', 'xz:compression-level=1'], 131072),
+                 ('lzma', ['lzma:compression-level=0'], 262144), ('lzip', ['lzip:compression-level=0'], 65536),
+                 ('gzip', [], 32768), ('gzip', ['gzip:compression-level=1'], 65536), ('compress', [], 10000), ('compress', [], 65536)]
+        CORE = ['trc', 'zrc', 'trcrc', 'htrc', 'trct']   # compressible, incompressible, repeat of the incompressible part
+        for i, (f, o, B) in enumerate(cfgs if tier == 'quick' else cfgs * 6):
+            # every structural configuration gets one case of the core family and one free combination
+            for t, near in ((CORE[(i + rng.randrange(len(CORE))) % len(CORE)], True), (rng.choice(TEMPL), False)):
+                yield Case(f'blocks-{f}', ['rt %s %s %s %s -/1 %d %s' % (
+                    f, ';'.join(o) or '-', segs(B, t, near), rng.choice(['all', 'c10000', 'c65537', 'c4096']),
+                    rng.choice([10240, 65536, 512]), rng.choice(['exact', 'exact', 'all']))])
+        # 2d. size classes per filter: several hundred KiB of incompressible bytes for every filter,
+        #     about 1 MiB for a few, with the options that cut the stream into frames / blocks
+        for f in CODEC:
+            n = rng.choice([200000, 200000, 262145, 300001, 400000])
+            yield Case(f'big-{f}', ['rt %s %s segs:%d:r%d %s -/1 %d exact' % (
+                f, ';'.join(gen_opts(rng, f)) or '-', rng.randrange(1 << 30), n, rng.choice(['all', 'c10000', 'c70001']),
+                rng.choice([10240, 65536]))])
+        for f, o in (('zstd', 'zstd:max-frame-in=196608'), ('zstd', '-'), ('lz4', 'lz4:block-size=4;lz4:block-dependence'),
+                     (rng.choice(['gzip', 'compress', 'zstd']), '-')):
+            yield Case(f'big1m-{f}', ['rt %s %s segs:%d:r%d %s -/1 65536 exact' % (
+                f, o, rng.randrange(1 << 30), rng.choice([1 << 20, (1 << 20) + 1, 900001]), rng.choice(['all', 'c10000']))])
         # 3. trailing zero padding (default bytes_in_last_block with callbacks): tolerated by these readers
         for f in ['gzip', 'bzip2', 'xz', 'lzip', 'lzma', 'lz4', 'uuencode', 'b64encode']:
             pl, n = payload(rng, tier, big_ok=False)
